@@ -117,7 +117,12 @@ CasesOf(s, k) ==      \* s: [sym, p, ad, ap] a seed record
   ELSE LET n == Complete(s.sym, s.p)
            subs == Pick(Substitutions(s.sym, n), k)
            sq == LET RECURSIVE f(_) f(T) == IF T = {} THEN <<>> ELSE LET x == CHOOSE x \in T : TRUE IN <<x>> \o f(T \ {x}) IN f(subs)
-       IN <<Case(s.sym, n, 0, 0, <<>>, <<>>)>> \o [i \in 1..Len(sq) |-> Case(s.sym, Subst(n, sq[i]), sq[i][1], sq[i][2], <<>>, <<>>)]
+           \* Code 93 has TWO check characters: a wrong C followed by the K that is consistent with it (K verifies, C does not)
+           ck == IF s.sym # "C93" THEN <<>>
+                 ELSE LET cs == {c \in 0..46 : c # CheckC93(s.p) /\ (c + k) % (IF Stride > 4 THEN 6 ELSE 1) = 0}
+                          cq == LET RECURSIVE g(_) g(T) == IF T = {} THEN <<>> ELSE LET x == CHOOSE x \in T : TRUE IN <<x>> \o g(T \ {x}) IN g(cs)
+                      IN [i \in 1..Len(cq) |-> Case("C93", s.p \o <<cq[i], Sum93(Append(s.p, cq[i]), 15) % 47>>, Len(s.p) + 1, cq[i], <<>>, <<>>)]
+       IN <<Case(s.sym, n, 0, 0, <<>>, <<>>)>> \o [i \in 1..Len(sq) |-> Case(s.sym, Subst(n, sq[i]), sq[i][1], sq[i][2], <<>>, <<>>)] \o ck
 
 (* ------------------------------------------------------------------ state machine *)
 Init == lvl = 0 /\ grp = 0 /\ job = 0
